@@ -764,6 +764,131 @@ func pkgNames(path string) []string {
 	return []string{base, strings.TrimPrefix(base, "go-"), strings.ReplaceAll(base, "-", "_")}
 }
 
+// ---- reset of package-level variables between simulated process incarnations
+//
+// One OS process plays many incarnations of the agent; a real restart would
+// re-initialise every package-level variable. For package pfcpiface a function is
+// generated that re-assigns each package-level variable whose initialiser can be
+// evaluated again without side effects (literals, composite literals, make/new,
+// conversions) or that has none (zero value). Variables an init() function refers
+// to, function-valued variables and everything initialised by a call (flag.String,
+// errors.New, ...) are left alone.
+
+func safeInit(e ast.Expr) bool {
+	switch x := e.(type) {
+	case nil:
+		return true
+	case *ast.BasicLit, *ast.Ident:
+		return true
+	case *ast.SelectorExpr:
+		_, ok := x.X.(*ast.Ident)
+		return ok
+	case *ast.ParenExpr:
+		return safeInit(x.X)
+	case *ast.StarExpr:
+		return safeInit(x.X)
+	case *ast.UnaryExpr:
+		return x.Op != token.ARROW && safeInit(x.X)
+	case *ast.BinaryExpr:
+		return safeInit(x.X) && safeInit(x.Y)
+	case *ast.KeyValueExpr:
+		return safeInit(x.Key) && safeInit(x.Value)
+	case *ast.CompositeLit:
+		for _, el := range x.Elts {
+			if !safeInit(el) {
+				return false
+			}
+		}
+		return true
+	case *ast.ArrayType, *ast.MapType, *ast.ChanType, *ast.StructType, *ast.InterfaceType:
+		return true
+	case *ast.CallExpr:
+		id, ok := x.Fun.(*ast.Ident)
+		if !ok {
+			return false
+		}
+		switch id.Name {
+		case "make", "new", "len", "cap", "string", "byte", "rune", "int", "int8", "int16", "int32", "int64",
+			"uint", "uint8", "uint16", "uint32", "uint64", "float32", "float64", "bool":
+			for _, a := range x.Args {
+				if !safeInit(a) {
+					return false
+				}
+			}
+			return true
+		}
+		return false
+	}
+	return false
+}
+
+// resetStmts returns the source of the re-assignments for the resettable
+// package-level variables of f (after rewriting), skipping names in skip.
+func resetStmts(fset *token.FileSet, f *ast.File, skip map[string]bool) []string {
+	var out []string
+	show := func(n ast.Node) string {
+		var b bytes.Buffer
+		printer.Fprint(&b, fset, n)
+		return b.String()
+	}
+	for _, d := range f.Decls {
+		gd, ok := d.(*ast.GenDecl)
+		if !ok || gd.Tok != token.VAR {
+			continue
+		}
+		for _, sp := range gd.Specs {
+			vs := sp.(*ast.ValueSpec)
+			if len(vs.Values) != 0 && len(vs.Values) != len(vs.Names) {
+				continue
+			}
+			for i, nm := range vs.Names {
+				if nm.Name == "_" || skip[nm.Name] {
+					continue
+				}
+				if len(vs.Values) == 0 {
+					if vs.Type == nil {
+						continue
+					}
+					if _, isFunc := vs.Type.(*ast.FuncType); isFunc {
+						continue
+					}
+					out = append(out, fmt.Sprintf("%s = *new(%s)", nm.Name, show(vs.Type)))
+					continue
+				}
+				if !safeInit(vs.Values[i]) {
+					continue
+				}
+				if vs.Type != nil {
+					out = append(out, fmt.Sprintf("%s = (%s)(%s)", nm.Name, show(vs.Type), show(vs.Values[i])))
+				} else {
+					out = append(out, fmt.Sprintf("%s = %s", nm.Name, show(vs.Values[i])))
+				}
+			}
+		}
+	}
+	return out
+}
+
+// initRefs: names an init() function of the package refers to.
+func initRefs(files []*ast.File) map[string]bool {
+	refs := map[string]bool{}
+	for _, f := range files {
+		for _, d := range f.Decls {
+			fd, ok := d.(*ast.FuncDecl)
+			if !ok || fd.Recv != nil || fd.Name.Name != "init" || fd.Body == nil {
+				continue
+			}
+			ast.Inspect(fd.Body, func(n ast.Node) bool {
+				if id, ok := n.(*ast.Ident); ok {
+					refs[id.Name] = true
+				}
+				return true
+			})
+		}
+	}
+	return refs
+}
+
 func main() {
 	root := flag.String("root", "", "module root of the scratch copy")
 	sitesOut := flag.String("sites", "", "generated site table (Go file in package vsim)")
@@ -801,6 +926,8 @@ func main() {
 	}
 	sort.Slice(pkgs, func(i, j int) bool { return pkgs[i].PkgPath < pkgs[j].PkgPath })
 	for _, p := range pkgs {
+		skipReset := initRefs(p.Syntax)
+		nReset := 0
 		for i, f := range p.Syntax {
 			name := p.CompiledGoFiles[i]
 			if strings.HasSuffix(name, "_test.go") || strings.Contains(name, "zz_verif_") {
@@ -851,7 +978,26 @@ func main() {
 				os.WriteFile(name+".broken", buf.Bytes(), 0o644)
 				os.Exit(2)
 			}
+			if p.Name == "pfcpiface" {
+				if st := resetStmts(p.Fset, f, skipReset); len(st) > 0 {
+					fmt.Fprintf(&buf, "\nfunc verifResetGlobals%d() {\n\t%s\n}\n", nReset, strings.Join(st, "\n\t"))
+					nReset++
+				}
+			}
 			if err := os.WriteFile(name, buf.Bytes(), 0o644); err != nil {
+				fmt.Fprintln(os.Stderr, "vinstr:", err)
+				os.Exit(2)
+			}
+		}
+		if p.Name == "pfcpiface" && len(p.CompiledGoFiles) > 0 {
+			var gb strings.Builder
+			gb.WriteString("// Code generated by vinstr. DO NOT EDIT.\n\npackage pfcpiface\n\nfunc init() {\n\tverifResetGenerated = func() {\n")
+			for k := 0; k < nReset; k++ {
+				fmt.Fprintf(&gb, "\t\tverifResetGlobals%d()\n", k)
+			}
+			gb.WriteString("\t}\n}\n")
+			gen := filepath.Join(filepath.Dir(p.CompiledGoFiles[0]), "zz_verif_globals_gen.go")
+			if err := os.WriteFile(gen, []byte(gb.String()), 0o644); err != nil {
 				fmt.Fprintln(os.Stderr, "vinstr:", err)
 				os.Exit(2)
 			}
